@@ -174,13 +174,20 @@ def is_binary(args):
 # ----------------------------------------------------------------------------------------------------
 # findings
 # ----------------------------------------------------------------------------------------------------
+ASSUME_FIXED = set(x for x in os.environ.get("C12_ASSUME_FIXED", "").split(",") if x)     # test-only
+
+
 def load_findings():
-    fs = [f for f in load_known_findings().get("open", []) if isinstance(f, dict) and f.get("property") == PID]
+    fs = [f for f in load_known_findings().get("open", []) if isinstance(f, dict) and f.get("property") == PID and f.get("id") not in ASSUME_FIXED]
     fixed_ids = {f.get("id") for f in load_known_findings().get("fixed", []) if isinstance(f, dict)}
     if os.path.exists(PENDING):
         have = {f["id"] for f in fs}
         for f in json.load(open(PENDING)):
-            if f["id"] not in have and f["id"] not in fixed_ids:
+            if f["id"] in ASSUME_FIXED:
+                continue
+            if f["id"] in have:
+                fs = [f if g["id"] == f["id"] else g for g in fs]      # a changed entry replaces the listed one
+            elif f["id"] not in fixed_ids:
                 fs.append(f)
     return fs
 
@@ -208,23 +215,30 @@ def parity_cause(name, args, ra, rb, db, dump_equal, variant):
         eb = False          # the wrapper expression failed (e.g. `#nil`) after the command had taken effect
     if name == "RENAMENX" and not ea:
         return "renamenx-is-rename"
+    big = lambda b: intarg(b) is not None and intarg(b) >= 2 ** 63          # noqa: E731  (2^63 .. : refused by the handlers since 06ab2bf)
     if name == "SET" and len(args) >= 3:
         opts = a[2:]
         n_exp = sum(1 for o in opts if o in (b"EX", b"PX"))
-        zero = any(o in (b"EX", b"PX") and i + 1 < len(opts) and intarg(opts[i + 1]) == 0 for i, o in enumerate(opts))
-        if ea and not eb and (n_exp > 1 or zero or b"GET" in opts or b"KEEPTTL" in opts):
+        bad_time = any(o in (b"EX", b"PX") and i + 1 < len(opts) and (intarg(opts[i + 1]) == 0 or big(opts[i + 1])) for i, o in enumerate(opts))
+        if ea and not eb and (n_exp > 1 or bad_time or b"GET" in opts or b"KEEPTTL" in opts):
             return "set-options"
-    if name in ("SETEX", "PSETEX") and len(args) == 4 and intarg(args[2]) == 0 and ea and not eb:
+    if name in ("SETEX", "PSETEX") and len(args) == 4 and (intarg(args[2]) == 0 or big(args[2])) and ea and not eb:
         return "setex-zero"
-    if name in ("EXPIRE", "PEXPIRE") and len(args) == 3 and intarg(args[2]) is not None and intarg(args[2]) <= 0 and not ea:
+    if name in ("EXPIRE", "PEXPIRE") and len(args) == 3 and intarg(args[2]) is not None and ((intarg(args[2]) <= 0 and not ea) or (big(args[2]) and ea and not eb)):
         return "expire-nonpositive"
+    if name in ("SPOP", "SRANDMEMBER", "ZPOPMIN", "ZPOPMAX") and len(args) == 3 and big(args[2]) and ea and not eb:
+        return "pop-counts"
+    if name in ("SPOP", "SRANDMEMBER") and not ea and not eb and ((len(args) == 3 and intarg(args[2]) == 1) or (len(args) == 2 and ra == ("nb",))):
+        return "pop-counts"         # `SPOP s 1` a bulk instead of a one-element array; a missing key without count an empty array instead of nil
     if name == "DECRBY" and len(args) == 3 and intarg(args[2]) == -2 ** 63 and ea and not eb:
         return "decrby-min"
-    if name in ("FLUSHALL", "FLUSHDB", "DBSIZE", "RANDOMKEY", "SAVE", "BGSAVE", "BGREWRITEAOF") and len(args) > 1 and ea and not eb:
+    if name in ("FLUSHALL", "FLUSHDB", "DBSIZE", "RANDOMKEY", "SAVE", "BGSAVE", "LASTSAVE") and len(args) > 1 and ea and not eb:
         return "arity-unchecked"
     if name in ("GETBIT", "SETBIT", "BITCOUNT", "TIME", "ZREMRANGEBYRANK", "ZREMRANGEBYSCORE", "ZREMRANGEBYLEX") and ea \
             and ra[1].startswith(b"ERR unknown command"):
         return "script-only-commands"
+    if name == "BGREWRITEAOF" and ea and not eb and ra[1].startswith(b"ERR AOF is disabled"):
+        return "script-only-commands"       # the persistence names are canned stubs inside scripts (they touch nothing)
     if name in ("ZADD", "ZINCRBY") and ea and not eb:
         scores = args[2:] if name == "ZADD" else args[2:3]
         if any((floatarg(x) is None or floatarg(x) != floatarg(x)) for x in scores[::2]) or \
@@ -232,7 +246,7 @@ def parity_cause(name, args, ra, rb, db, dump_equal, variant):
             return "zadd-validation"
     if name in ("FLUSHDB", "DBSIZE", "KEYS") and db != 0 and not eb:
         return "db0-commands"
-    if name in ("ZPOPMIN", "ZPOPMAX") and ra == ("na",):
+    if name in ("ZPOPMIN", "ZPOPMAX") and ra == ("na",) and not eb:
         return "zpop-missing"
     return None
 
@@ -559,7 +573,8 @@ class Checker:
             det.update({"dump_A": da, "dump_B": db_})
         binary = is_binary(args)
         ok_spec, ok_code = cb == cspec, cb == ccode
-        if ra[0] == "e" and rb[0] == "e" and err_class(ra[1]) != err_class(rb[1]):
+        if ra[0] == "e" and rb[0] == "e" and err_class(ra[1]) != err_class(rb[1]) \
+                and parity_cause(name, args, ra, rb, tw.db, True, variant) != "script-only-commands":
             rep.count("twin.error-class-differs")
             if not self.note_known("parity:error-class", det):
                 self.fail("twin", "error class %s became %s inside a script" % (err_class(ra[1]), err_class(rb[1])), det)
@@ -835,6 +850,55 @@ CORPUS = [
     (0, [], [b"ZINCRBY", b"z2", b"nan", b"b"], "raw"),
     (0, [], [b"ZPOPMIN", b"miss"], "type"),
     (0, [], [b"ZPOPMAX", b"miss"], "ptype"),
+    (0, [[b"SET", b"k1", b"a"]], [b"SET", b"k1", b"b", b"EX", b"9223372036854775808"], "raw"),
+    (0, [[b"SET", b"k1", b"a"]], [b"SET", b"k1", b"b", b"PX", b"18446744073709551615"], "raw"),
+    (0, [[b"SET", b"k1", b"a"]], [b"SET", b"k1", b"b", b"KEEPTTL"], "raw"),
+    (0, [[b"SET", b"k1", b"a"]], [b"SET", b"k1", b"b", b"NX", b"XX"], "raw"),
+    (0, [[b"SET", b"k1", b"a"]], [b"SET", b"k1", b"b", b"PX", b"-1"], "raw"),
+    (0, [[b"SET", b"k1", b"a"]], [b"SETEX", b"k1", b"9223372036854775808", b"b"], "raw"),
+    (0, [[b"SET", b"k1", b"a"]], [b"PSETEX", b"k1", b"18446744073709551615", b"b"], "raw"),
+    (0, [[b"SET", b"k1", b"a"]], [b"SETEX", b"k1", b"-1", b"b"], "raw"),
+    (0, [[b"SET", b"k1", b"a"]], [b"EXPIRE", b"k1", b"9223372036854775808"], "raw"),
+    (0, [[b"SET", b"k1", b"a"]], [b"PEXPIRE", b"k1", b"9223372036854775808"], "raw"),
+    (0, [], [b"EXPIRE", b"miss", b"-1"], "raw"),
+    (0, [], [b"PEXPIRE", b"miss", b"-1"], "raw"),
+    (0, [[b"SET", b"k1", b"a"]], [b"SETRANGE", b"k1", b"9223372036854775808", b"x"], "raw"),
+    (0, [[b"SET", b"k1", b"a"]], [b"SETRANGE", b"k1", b"-1", b"x"], "raw"),
+    (0, [[b"ZADD", b"z", b"1", b"a", b"2", b"b"]], [b"ZPOPMIN", b"z", b"9223372036854775808"], "raw"),
+    (0, [[b"ZADD", b"z", b"1", b"a", b"2", b"b"]], [b"ZPOPMAX", b"z", b"18446744073709551615"], "raw"),
+    (0, [[b"ZADD", b"z", b"1", b"a", b"2", b"b"]], [b"ZPOPMIN", b"z", b"0"], "type"),
+    (0, [[b"ZADD", b"z", b"1", b"a", b"2", b"b"]], [b"ZPOPMAX", b"z", b"-1"], "raw"),
+    (0, [[b"ZADD", b"z", b"1", b"a", b"2", b"b"]], [b"ZPOPMIN", b"z", b"5"], "raw"),
+    (0, [[b"ZADD", b"z", b"inf", b"a"]], [b"ZINCRBY", b"z", b"-inf", b"a"], "raw"),
+    (0, [[b"SET", b"k1", b"a"]], [b"ZADD", b"k1", b"1", b"m"], "raw"),
+    # SPOP / SRANDMEMBER are random in general; on a one-member set (or a missing key) they are not
+    (0, [[b"SADD", b"s", b"m"]], [b"SPOP", b"s"], "raw"),
+    (0, [[b"SADD", b"s", b"m"]], [b"SPOP", b"s", b"1"], "raw"),
+    (0, [[b"SADD", b"s", b"m"]], [b"SPOP", b"s", b"0"], "raw"),
+    (0, [[b"SADD", b"s", b"m"]], [b"SPOP", b"s", b"5"], "raw"),
+    (0, [[b"SADD", b"s", b"m"]], [b"SPOP", b"s", b"-1"], "raw"),
+    (0, [[b"SADD", b"s", b"m"]], [b"SPOP", b"s", b"9223372036854775808"], "raw"),
+    (0, [], [b"SPOP", b"miss"], "type"),
+    (0, [], [b"SPOP", b"miss", b"2"], "type"),
+    (0, [[b"SET", b"k1", b"a"]], [b"SPOP", b"k1"], "raw"),
+    (0, [[b"SADD", b"s", b"m"]], [b"SRANDMEMBER", b"s"], "raw"),
+    (0, [[b"SADD", b"s", b"m"]], [b"SRANDMEMBER", b"s", b"1"], "raw"),
+    (0, [[b"SADD", b"s", b"m"]], [b"SRANDMEMBER", b"s", b"-3"], "raw"),
+    (0, [[b"SADD", b"s", b"m"]], [b"SRANDMEMBER", b"s", b"0"], "raw"),
+    (0, [[b"SADD", b"s", b"m"]], [b"SRANDMEMBER", b"s", b"9223372036854775808"], "raw"),
+    (0, [], [b"SRANDMEMBER", b"miss"], "type"),
+    (0, [], [b"SRANDMEMBER", b"miss", b"2"], "type"),
+    (0, [[b"SET", b"k1", b"a"]], [b"FLUSHALL", b"extra"], "raw"),
+    (0, [[b"SET", b"k1", b"a"]], [b"RANDOMKEY", b"extra"], "raw"),
+    (0, [[b"SET", b"k1", b"a"]], [b"SAVE", b"extra"], "raw"),
+    (0, [[b"SET", b"k1", b"a"]], [b"BGSAVE", b"extra"], "raw"),
+    (0, [[b"SET", b"k1", b"a"]], [b"LASTSAVE", b"extra"], "raw"),
+    (0, [[b"RPUSH", b"l", b"a"]], [b"INCR", b"l"], "raw"),
+    (0, [[b"RPUSH", b"l", b"a"]], [b"SADD", b"l", b"x"], "praw"),
+    (0, [[b"RPUSH", b"l", b"a"]], [b"HGET", b"l", b"f"], "raw"),
+    (0, [[b"RPUSH", b"l", b"a"]], [b"MGET", b"l"], "raw"),
+    (0, [[b"SET", b"k1", b"a"]], [b"LPUSH", b"k1", b"x"], "raw"),
+    (0, [[b"SET", b"k1", b"a"]], [b"ZSCORE", b"k1", b"m"], "raw"),
     (5, [[b"SET", b"k1", b"a"]], [b"FLUSHDB"], "raw"),
     (5, [[b"SET", b"k1", b"a"]], [b"DBSIZE"], "raw"),
     (5, [[b"SET", b"k1", b"a"]], [b"KEYS", b"*"], "raw"),
